@@ -199,6 +199,7 @@ def rowTextOK (T : Tbl) (X : TextTbl) (F S : List Ch) (o : Nat) : Bool :=
    | .bracket c _ _ =>
        symGlued X o && startsIn F (glued (X.sym o)) && endsOK X (S ++ closeFirst X c) (glued (X.sym o)) &&
          closeOK X F c && startsIn (S ++ closeFirst X c) (glued (X.close c))
+   | .arrow _ _ _ g => symSpaced X o && startsIn F (glued (X.sym g))
    | _ => true)
 
 def tyOK (X : TextTbl) (F : List Ch) (n : Nat) : Bool :=
@@ -248,19 +249,80 @@ theorem bracket_tail (X : TextTbl) (F S : List Ch) (c : Nat) (op body : List Pie
     have h2 : endsOK X F (op ++ body) = true := (endsOK_append X F op body hbne).trans hb.ends
     exact ⟨chainOK_append_tight X F _ _ h1 hcc h2 hcst, (endsOK_append X F _ _ hcne).trans hce⟩
 
-/-- **every tree returned by the parser renders to a separable piece list** -/
+theorem head?_append_ne {a b : List Tok} (h : a ≠ []) : (a ++ b).head? = a.head? := by
+  cases a with
+  | nil => exact absurd rfl h
+  | cons x xs => rfl
+
+/-- a tree whose first token is the symbol `g` is written starting with the text of `g` -/
+theorem render_head (T : Tbl) (X : TextTbl) : ∀ t, WFr T t → ∀ g, t.yield.head? = some (.op g) →
+    ∃ rest, render X t = glued (X.sym g) ++ rest := by
+  intro t
+  induction t with
+  | nil => intro h; simp [WFr] at h
+  | atom k n => intro _ g hy; simp [Tree.yield] at hy
+  | group g' c e _ =>
+    intro _ g hy
+    simp only [Tree.yield, List.head?_cons, Option.some.injEq, Tok.op.injEq] at hy
+    subst hy
+    exact ⟨render X e ++ glued (X.close c), by simp [render, List.append_assoc]⟩
+  | pre p x _ =>
+    intro _ g hy
+    simp only [Tree.yield, List.head?_cons, Option.some.injEq, Tok.op.injEq] at hy
+    subst hy
+    exact ⟨render X x, by simp [render]⟩
+  | bin o l r ihl _ =>
+    intro h g hy
+    cases hl : T.led o <;> simp only [WFr, hl] at h
+    have hne := wfr_yield_ne_nil T l h.1
+    simp only [Tree.yield] at hy
+    rw [head?_append_ne hne] at hy
+    obtain ⟨rest, hr⟩ := ihl h.1 g hy
+    simp only [render]
+    split
+    · exact ⟨rest ++ sp (spacedWords (X.sym o)) ++ sp (render X r), by simp [hr, List.append_assoc]⟩
+    · exact ⟨rest ++ glued (X.sym o) ++ render X r, by simp [hr, List.append_assoc]⟩
+    · exact ⟨rest ++ glued (X.sym o) ++ sp (render X r), by simp [hr, List.append_assoc]⟩
+  | typed o l n ihl =>
+    intro h g hy
+    cases hl : T.led o <;> simp only [WFr, hl] at h
+    have hne := wfr_yield_ne_nil T l h.1
+    simp only [Tree.yield] at hy
+    rw [head?_append_ne hne] at hy
+    obtain ⟨rest, hr⟩ := ihl h.1 g hy
+    exact ⟨rest ++ sp (spacedWords (X.sym o)) ++ sp (glued (X.ty n)), by simp [render, hr, List.append_assoc]⟩
+  | post o c l e ihl _ =>
+    intro h g hy
+    cases hl : T.led o <;> simp only [WFr, hl] at h
+    have hne := wfr_yield_ne_nil T l h.2.1
+    simp only [Tree.yield] at hy
+    rw [head?_append_ne hne] at hy
+    obtain ⟨rest, hr⟩ := ihl h.2.1 g hy
+    exact ⟨rest ++ glued (X.sym o) ++ render X e ++ glued (X.close c), by simp [render, hr, List.append_assoc]⟩
+  | arrow o l f a ihl _ _ =>
+    intro h g hy
+    cases hl : T.led o <;> simp only [WFr, hl] at h
+    have hne := wfr_yield_ne_nil T l h.1
+    simp only [Tree.yield] at hy
+    rw [head?_append_ne hne] at hy
+    obtain ⟨rest, hr⟩ := ihl h.1 g hy
+    exact ⟨rest ++ sp (spacedWords (X.sym o)) ++ sp (render X f) ++ render X a, by simp [render, hr, List.append_assoc]⟩
+
+/-- **every tree returned by the parser renders to a separable piece list** (`argsOpen`: the argument list of an
+arrow starts with its parenthesis) -/
 theorem render_rendered (T : Tbl) (X : TextTbl) (F S : List Ch) (hok : TextOK T X F S) :
-    ∀ t, WFr T t → Rendered X F S (render X t) := by
+    ∀ t, WFr T t → argsOpen t = true → Rendered X F S (render X t) := by
   intro t
   induction t with
   | nil => intro h; simp [WFr] at h
   | atom k n =>
-    intro _
+    intro _ _
     have := hok.atoms k n
     simp only [atomOK, Bool.and_eq_true] at this
     exact ⟨this.1.1, this.1.2, this.2⟩
   | group g c e ih =>
-    intro h
+    intro h hao
+    simp only [argsOpen] at hao
     cases hn : T.nud g <;> simp only [WFr, hn] at h
     rename_i c' eo
     obtain ⟨rfl, he⟩ := h
@@ -270,25 +332,27 @@ theorem render_rendered (T : Tbl) (X : TextTbl) (F S : List Ch) (hok : TextOK T 
     have hbody : render X e = [] ∨ Rendered X F S (render X e) := by
       rcases he with ⟨rfl, -⟩ | he
       · left; rfl
-      · right; exact ih he
+      · right; exact ih he hao
     have := bracket_tail X F S c _ _ hch (glued_ne_nil hne) hend hcl hcs hbody
     refine ⟨by simpa [render] using this.1, ?_, by simpa [render] using this.2⟩
     simpa [render, List.append_assoc] using startsIn_append S _ _ hst
   | pre p x ih =>
-    intro h
+    intro h hao
+    simp only [argsOpen] at hao
     cases hn : T.nud p <;> simp only [WFr, hn] at h
     have hr := hok.rows p
     simp only [rowTextOK, hn, Bool.and_eq_true, symGlued, Bool.not_eq_true'] at hr
     obtain ⟨⟨⟨hch, hne⟩, hend⟩, hst⟩ := hr.1
-    have hx := ih h.1
+    have hx := ih h.1 hao
     have hxne := startsIn_ne_nil _ _ hx.starts
     exact ⟨chainOK_append_tight X S _ _ hch hx.chain hend hx.starts,
       startsIn_append S _ _ hst, (endsOK_append X F _ _ hxne).trans hx.ends⟩
   | bin o l r ihl ihr =>
-    intro h
+    intro h hao
+    simp only [argsOpen, Bool.and_eq_true] at hao
     cases hl : T.led o <;> simp only [WFr, hl] at h
-    have hL := ihl h.1
-    have hR := ihr h.2.1
+    have hL := ihl h.1 hao.1
+    have hR := ihr h.2.1 hao.2
     have hRne := startsIn_ne_nil _ _ hR.starts
     have hr := hok.rows o
     simp only [rowTextOK, hl, Bool.and_eq_true] at hr
@@ -331,9 +395,10 @@ theorem render_rendered (T : Tbl) (X : TextTbl) (F S : List Ch) (hok : TextOK T 
       · simpa [List.append_assoc] using startsIn_append S _ _ hL.starts
       · rw [endsOK_append X F _ _ hne', endsOK_sp]; exact hR.ends
   | typed o l n ih =>
-    intro h
+    intro h hao
+    simp only [argsOpen] at hao
     cases hl : T.led o <;> simp only [WFr, hl] at h
-    have hL := ih h.1
+    have hL := ih h.1 hao
     have hr := hok.rows o
     simp only [rowTextOK, hl, Bool.and_eq_true, symSpaced, Bool.not_eq_true'] at hr
     have hty := hok.tys n
@@ -348,18 +413,19 @@ theorem render_rendered (T : Tbl) (X : TextTbl) (F S : List Ch) (hok : TextOK T 
     · simpa [render, List.append_assoc] using startsIn_append S _ _ hL.starts
     · simp only [render]; rw [endsOK_append X F _ _ hne, endsOK_sp]; exact hte
   | post o c l e ihl ihe =>
-    intro h
+    intro h hao
+    simp only [argsOpen, Bool.and_eq_true] at hao
     cases hl : T.led o <;> simp only [WFr, hl] at h
     rename_i c' eo deny
     obtain ⟨rfl, hwl, -, -, he⟩ := h
-    have hL := ihl hwl
+    have hL := ihl hwl hao.1
     have hr := hok.rows o
     simp only [rowTextOK, hl, Bool.and_eq_true, symGlued, Bool.not_eq_true'] at hr
     obtain ⟨⟨⟨⟨⟨hch, hne⟩, hst⟩, hend⟩, hcl⟩, hcs⟩ := hr.2
     have hbody : render X e = [] ∨ Rendered X F S (render X e) := by
       rcases he with ⟨rfl, -⟩ | he
       · left; rfl
-      · right; exact ihe he
+      · right; exact ihe he hao.2
     -- the opening symbol after the left operand
     have hop : chainOK X (render X l ++ glued (X.sym o)) = true :=
       chainOK_append_tight X F _ _ hL.chain hch hL.ends hst
@@ -370,6 +436,87 @@ theorem render_rendered (T : Tbl) (X : TextTbl) (F S : List Ch) (hok : TextOK T 
     have := bracket_tail X F S c _ _ hop hopne hopend hcl hcs hbody
     refine ⟨by simpa [render, List.append_assoc] using this.1, ?_, by simpa [render, List.append_assoc] using this.2⟩
     simpa [render, List.append_assoc] using startsIn_append S _ _ hL.starts
+  | arrow o l f a ihl ihf iha =>
+    intro h hao
+    simp only [argsOpen, Bool.and_eq_true, beq_iff_eq] at hao
+    obtain ⟨⟨⟨hhd, hal⟩, haf⟩, haa⟩ := hao
+    cases hl : T.led o <;> simp only [WFr, hl] at h
+    rename_i sr ar start g
+    obtain ⟨hwl, hwf, hwa, -, -, -, -, hhead⟩ := h
+    have hL := ihl hwl hal
+    have hF := ihf hwf haf
+    have hA := iha hwa haa
+    have hr := hok.rows o
+    simp only [rowTextOK, hl, Bool.and_eq_true, symSpaced, Bool.not_eq_true'] at hr
+    obtain ⟨⟨hch, hne⟩, hgst⟩ := hr.2
+    have hg : (a.head - 1) / 2 = g := by rw [hhead]; omega
+    rw [hg] at hhd
+    obtain ⟨rest, hra⟩ := render_head T X a hwa g hhd
+    have hast : startsIn F (render X a) = true := by rw [hra]; exact startsIn_append F _ _ hgst
+    have hAne := startsIn_ne_nil _ _ hA.starts
+    have h1 := chainOK_append_sp X hok.blank _ _ hL.chain hch
+    have h2 := chainOK_append_sp X hok.blank _ _ h1 hF.chain
+    have hne' : sp (render X f) ≠ [] := by
+      have := startsIn_ne_nil _ _ hF.starts
+      cases hrr : render X f <;> simp_all [sp]
+    have h2e : endsOK X F (render X l ++ sp (spacedWords (X.sym o)) ++ sp (render X f)) = true := by
+      rw [endsOK_append X F _ _ hne', endsOK_sp]; exact hF.ends
+    refine ⟨?_, ?_, ?_⟩
+    · simpa [render] using chainOK_append_tight X F _ _ h2 hA.chain h2e hast
+    · simpa [render, List.append_assoc] using startsIn_append S _ _ hL.starts
+    · simp only [render]; rw [endsOK_append X F _ _ hAne]; exact hA.ends
+
+/-- without an arrow symbol in the table no tree has an arrow node -/
+theorem argsOpen_of_noArrow (T : Tbl) (hno : ∀ o sr ar start g, T.led o ≠ .arrow sr ar start g) :
+    ∀ t, WFr T t → argsOpen t = true := by
+  intro t
+  induction t with
+  | nil => intro h; simp [WFr] at h
+  | atom => intro _; rfl
+  | group g c e ih =>
+    intro h
+    cases hn : T.nud g <;> simp only [WFr, hn] at h
+    rcases h.2 with ⟨rfl, -⟩ | h2
+    · rfl
+    · simpa [argsOpen] using ih h2
+  | pre p x ih =>
+    intro h
+    cases hn : T.nud p <;> simp only [WFr, hn] at h
+    simpa [argsOpen] using ih h.1
+  | bin o l r ihl ihr =>
+    intro h
+    cases hl : T.led o <;> simp only [WFr, hl] at h
+    simp [argsOpen, ihl h.1, ihr h.2.1]
+  | typed o l n ih =>
+    intro h
+    cases hl : T.led o <;> simp only [WFr, hl] at h
+    simpa [argsOpen] using ih h.1
+  | post o c l e ihl ihe =>
+    intro h
+    cases hl : T.led o <;> simp only [WFr, hl] at h
+    obtain ⟨-, hwl, -, -, he⟩ := h
+    rcases he with ⟨rfl, -⟩ | he
+    · simp [argsOpen, ihl hwl]
+    · simp [argsOpen, ihl hwl, ihe he]
+  | arrow o l f a _ _ _ =>
+    intro h
+    cases hl : T.led o <;> simp only [WFr, hl] at h
+    exact absurd hl (hno o _ _ _ _)
+
+/-- decidable form of "the table has no arrow symbol" -/
+def noArrowB (rows : List Row) : Bool := rows.all fun r => match r.led with | .arrow .. => false | _ => true
+
+theorem noArrow_of_check (rows : List Row) (h : noArrowB rows = true) :
+    ∀ o sr ar start g, (tableOf rows).led o ≠ .arrow sr ar start g := by
+  intro o sr ar start g hl
+  simp only [noArrowB, List.all_eq_true] at h
+  by_cases ho : o < rows.length
+  · have := h rows[o] (List.getElem_mem ho)
+    simp only [tableOf, List.getElem?_eq_getElem ho, Option.map_some, Option.getD_some] at hl
+    rw [hl] at this
+    simp at this
+  · have : rows[o]? = none := List.getElem?_eq_none (by omega)
+    simp [tableOf, this] at hl
 
 /-! ### discharging `TextOK` for a concrete table -/
 
@@ -550,8 +697,8 @@ theorem textOK_of_check (rows : List Row) (X : TextTbl) (F S : List Ch) (ntys : 
 
 /-- **the `source` text of every parse result lexes back to the lexemes of the input** -/
 theorem source_lexes_back (rows : List Row) (X : TextTbl) (F S : List Ch) (hok : TextOK (tableOf rows) X F S)
-    (t : Tree) (hw : WFr (tableOf rows) t) :
+    (t : Tree) (hw : WFr (tableOf rows) t) (ha : argsOpen t = true) :
     lexAll X (textOf (render X t)).length (textOf (render X t)) = some (t.yield.flatMap (tokLex X)) :=
-  lex_render X t (render_rendered _ X F S hok t hw).chain _ (Nat.le_refl _)
+  lex_render X t (render_rendered _ X F S hok t hw ha).chain _ (Nat.le_refl _)
 
 end EPV.Source
